@@ -493,7 +493,7 @@ pub fn observe(a: &EmmyLuaAnalysis) -> Value {
         let id = d.get_id();
         let mut locs: Vec<String> = d.get_locations().iter().map(|l| format!("{} flags={:?}", loc(db, l.file_id, l.range), l.flag)).collect();
         locs.sort();
-        let mut supers: Vec<String> = db.get_type_index().get_super_types_raw(&id).unwrap_or_default().iter().map(|t| render_type(db, t)).collect();
+        let mut supers: Vec<String> = db.get_type_index().get_super_types_raw(&id).unwrap_or_default().iter().map(|t| canon_type(&humanize_type(db, t, RenderLevel::Simple))).collect(); // the relation only: the members of a super type are dumped under that type
         supers.sort();
         let generics: Vec<String> = db
             .get_type_index()
